@@ -59,7 +59,7 @@ def gen_worker_cases(ctx):
 
     def add(c):
         base = {"leader_roles": [], "peers": [], "actors": [], "grains": [], "has_loads": False, "loads": [], "local_fail": [],
-                "poison": {}, "reported": {}, "peers_error": False}
+                "poison": {}, "reported": {}, "peers_error": False, "dep_host": "", "stale": []}
         base.update(c)
         base["n"] = len(cases)
         cases.append(base)
@@ -78,6 +78,15 @@ def gen_worker_cases(ctx):
     add({"leader_roles": [1], "peers": [[2], []], "actors": actors(8, roles=(0, 0, 1, 2, 9)), "grains": grains(3), "reported": {"0": ["a1", "a3", "a5"], "1": ["a2", "a4", "a6", "g1"]}})
     # a local failure (costs the item retries: 1.5 s)
     add({"peers": [[]], "actors": actors(4, p_single=0.5), "grains": grains(5, p_dis=0.0), "local_fail": ["a1", "a2", "g1"]})
+    # registry records that still point at the departed node (they must be withdrawn and the item respawned,
+    # which fails here because the type is unknown on the leader: the item has to be LISTED), for IPv4,
+    # IPv6-literal and DNS-named departed nodes
+    for host in ["", "::1", "2001:db8::5", "node-7.cluster.local"]:
+        acts = actors(4, p_single=0.3)
+        gr = [{"id": 1, "disabled": False, "eager": True}, {"id": 2, "disabled": False, "eager": False}, {"id": 3, "disabled": False, "eager": True}]
+        add({"peers": [], "actors": acts, "grains": gr, "dep_host": host, "stale": ["a1", "a3", "g1", "g2"]})
+    add({"peers": [[], []], "actors": actors(7), "grains": grains(6, p_dis=0.0), "dep_host": "fe80::1ff:fe23:4567:890a", "stale": ["a1", "a2", "g1"],
+         "poison": {"0": ["a1", "a2", "a3", "a4", "a5", "a6", "a7"]}})
     # F1: actors-focused (fewer grains than targets: all grains stay with the leader)
     n_f1 = 40 if ctx.thorough else 12
     for _ in range(n_f1):
@@ -91,6 +100,7 @@ def gen_worker_cases(ctx):
         c = {"leader_roles": some([1, 2], rng.randint(0, 2)), "peers": roles, "actors": acts, "grains": gr, "poison": poison, "reported": reported}
         if rng.random() < 0.4:
             c["has_loads"], c["loads"] = True, [rng.randint(0, 4) for _ in range(npeers + 1)]
+        c["dep_host"] = rng.choice(["", "", "::1", "2001:db8::5", "10.1.2.3"])
         add(c)
     # F2: grains-focused (only grain items are poisoned, so every actor batch is delivered)
     n_f2 = 40 if ctx.thorough else 12
@@ -102,7 +112,7 @@ def gen_worker_cases(ctx):
         poison = {str(p): some(gnames, rng.choice([0, 1, 2, len(gnames)])) for p in range(npeers)}
         reported = {str(p): some(gnames + ["a%d" % a["id"] for a in acts], rng.randint(0, 2)) for p in range(npeers)}
         add({"peers": [[] for _ in range(npeers)], "actors": acts, "grains": gr, "poison": poison, "reported": reported,
-             "local_fail": some(gnames, 1) if rng.random() < 0.25 else []})
+             "local_fail": some(gnames, 1) if rng.random() < 0.25 else [], "dep_host": rng.choice(["", "", "::1", "2001:db8::5"])})
     if ctx.thorough:
         for _ in range(6):
             add({"peers": [[]], "actors": actors(3), "grains": grains(4), "peers_error": True, "local_fail": ["g1"]})
@@ -199,7 +209,17 @@ def worker_oracle(ctx, c, o, counters):
     if not o["job_released"] or o["deletes"] != 1:
         viol("relocate:bookkeeping", "after relocate: job released=%s, peer state deletions=%d" % (o["job_released"], o["deletes"]))
         return False
-    fail = set(c["local_fail"])
+    eager_names = {"g%d" % g["id"] for g in c["grains"] if g["eager"]}
+    # a stale record of an actor / eager grain cannot be turned into a running instance here (unknown type)
+    fail = set(c["local_fail"]) | {x for x in c.get("stale", []) if x[0] == "a" or x in eager_names}
+    if o.get("dup_accepted"):
+        viol("relocationWorker.finish:duplicate-accepted-during-snapshot-delete",
+             "a duplicate NodeLeft handled while the worker was deleting the peer-state snapshot was accepted by beginRelocation (%d times): the job had already been released although the snapshot was still readable, so a second relocation of the same node starts" % o["dup_accepted"])
+        return False
+    bad_markers = [m for m in (o.get("markers") or []) if m != o.get("want_marker")]
+    if bad_markers:
+        viol("relocate:departed-node-marker", "RelocateBatch requests carry the departed-node marker %r while the registry renders that endpoint as %r: every record still pointing at the departed node is taken for 'already relocated elsewhere' and skipped" % (bad_markers[0], o.get("want_marker")))
+        return False
     rel_items = ["a%d" % a["id"] for a in c["actors"]] + ["g%d" % g["id"] for g in c["grains"] if not g["disabled"]]
     eager = {"g%d" % g["id"] for g in c["grains"] if g["eager"]}
     if c["peers_error"]:
@@ -318,6 +338,11 @@ Definition wn : list wcase := []. Definition wc (x : wcase) (l : list wcase) := 
 """
 
 
+def model_local_fail(c):
+    eager = {"g%d" % g["id"] for g in c["grains"] if g["eager"]}
+    return sorted(set(c["local_fail"]) | {x for x in c.get("stale", []) if x[0] == "a" or x in eager})
+
+
 def set_lit(names):
     return "(%s, %s)" % (cN(ids(names, "a")), cN(ids(names, "g")))
 
@@ -333,7 +358,7 @@ def worker_model(ctx, cases, outs, orders):
         reported = "[" + "; ".join(set_lit(c["reported"].get(str(p), [])) for p in range(npeers)) + "]"
         loads = c["loads"] if c["has_loads"] else []
         rows.append("(mkW %d %s %s %s %s %s %s %s %s %s)" % (
-            c["n"], cR(c["leader_roles"]), cRR(c["peers"]), cA(order), cG(gorder), cZ(loads), set_lit(c["local_fail"]), poison, reported,
+            c["n"], cR(c["leader_roles"]), cRR(c["peers"]), cA(order), cG(gorder), cZ(loads), set_lit(model_local_fail(c)), poison, reported,
             "true" if c["peers_error"] else "false"))
     lst = "wn"
     for r in reversed(rows):
@@ -492,6 +517,7 @@ def run(ctx):
                     no_order += 1
                 else:
                     orders[c["n"]] = rec
+    ctx.coq_build(["theories/C33/Worker.vo", "theories/C33/Model.vo"])
     model, mout = worker_model(ctx, cases, outs, orders)
     wm_bad = []
     if model is None:
@@ -522,6 +548,13 @@ def run(ctx):
                       (a["w"], "panicked" if a["op"] == "crash" else "completed", a["stuck"]),
                       {"op_sequence": seq["ops"], "applied_until": [x["op"] for x in o["applied"]], "observation": a,
                        "sequences_affected": len({o2["n"] for o2, _ in stuck})})
+    dups = [(o, a) for o in louts for a in (o["applied"] or []) if a.get("dup_accepted")]
+    if dups:
+        o, a = dups[0]
+        seq = next(sq for sq in seqs if sq["n"] == o["n"])
+        ctx.violation("relocationWorker.finish:duplicate-accepted-during-snapshot-delete",
+                      "a duplicate NodeLeft handled while the peer-state snapshot of the departed node was being deleted (after step %s of the history) was accepted by beginRelocation: the job is released before the snapshot is gone, so the same node would be relocated a second time" % a["op"],
+                      {"op_sequence": seq["ops"], "applied": [x["op"] for x in o["applied"]], "observation": a})
     errs = [o for o in louts if o.get("err")]
     if errs:
         ctx.tie_broken("go-harness relocator stepping", {"first": errs[0]["err"], "count": len(errs)})
